@@ -120,7 +120,12 @@ def corpus():
     w = {"files": {b"f": (b"a\nb\n", 0o644)}, "dirs": [], "applied": None, "series": b"p1.patch\np2.patch\n",
          "patches": {b"p1.patch": b"--- a/f\n+++ b/f\n@@ -1,2 +1,2 @@\n-a\n+A\n\\ No newline at end of file\n b\n",
                      b"p2.patch": b"--- a/f\n+++ b/f\n@@ -2 +2 @@\n-b\n+B\n"}}
-    return [(w, dict(base), [(("C", 1), 1), (("A",), 1)])]
+    # seeded C09-d: the place found for p2 must not depend on where p1 was found in the same invocation
+    w2 = {"files": {b"f.txt": (b"".join(x + b"\n" for x in b"start blk item end mid1 mid2 blk item end tail1 tail2 uniq-a uniq-b uniq-c last".split()), 0o644)},
+          "dirs": [], "applied": None, "series": b"p1.patch\np2.patch\n",
+          "patches": {b"p1.patch": b"--- a/f.txt\n+++ b/f.txt\n@@ -7,3 +7,3 @@\n uniq-a\n-uniq-b\n+UNIQ-B\n uniq-c\n",
+                      b"p2.patch": b"--- a/f.txt\n+++ b/f.txt\n@@ -2,3 +2,3 @@\n blk\n-item\n+ITEM\n end\n"}}
+    return [(w, dict(base), [(("C", 1), 1), (("A",), 1)]), (w2, dict(base), [(("C", 1), 1), (("A",), 1)])]
 
 
 def run(ctx):
@@ -136,7 +141,11 @@ def run(ctx):
             w, cfg, steps = item
             names = l3common.series_names(w)
         else:
-            w = l3gen.gen_workspace(rng, npatches=rng.randint(2, 6), fail_prob=0.35)
+            if rng.random() < 0.2:
+                w = l3gen.gen_repetitive_workspace(rng)
+                hist["repetitive file, stale line numbers"] += 1
+            else:
+                w = l3gen.gen_workspace(rng, npatches=rng.randint(2, 6), fail_prob=0.35)
             names = l3common.series_names(w)
             if len(names) < 2:
                 continue
@@ -223,6 +232,7 @@ def ws_from_model(w, snap):
             files[path] = (bytes.fromhex(f[3]) if f[3] != "-" else b"", int(f[2]))
     w2 = copy.deepcopy(w)
     w2["files"], w2["dirs"], w2["applied"] = files, [d for d in dirs if d != b".pc"], applied
+    w2["links"] = {}          # a saved file is a regular file
     return w2
 
 
